@@ -137,6 +137,20 @@ def run(pid, tier, seed):
                         % (c["tampered"], c["pkg"], c["n"], c["t"]))
             else:
                 undetectable += 1
+        elif k == "dkg":
+            honest = [a for i, a in enumerate(c["accepted"]) if i + 1 != c["tampered"]]
+            if c["stuck"]:
+                hit("dkg_stuck", c, "a KeyGen of the in-process DKG did not return: %s n=%d t=%d" % (c["pkg"], c["n"], c["t"]))
+            elif c["tampered"] == 0:
+                if not (all(honest) and c["same_tpk"] and c["sk_on_poly"] and c["tpk_is_secret"] and c["sigs_verify"]):
+                    hit("dkg_honest", c, "honest DKG through the public API: KeyGen rejected, or the stored threshold key / shares / "
+                        "aggregated signatures are inconsistent: %s n=%d t=%d" % (c["pkg"], c["n"], c["t"]))
+            elif c["t"] < c["n"]:
+                if any(honest):
+                    hit("dkg_miss", c, "KeyGen of an honest party accepted although party %d revealed a key off the polynomial: %s n=%d t=%d"
+                        % (c["tampered"], c["pkg"], c["n"], c["t"]))
+            else:
+                undetectable += 1
         elif k == "choose":
             want = [list(x) for x in itertools.combinations(range(1, c["n"] + 1), c["k"])]
             if c["subsets"] != want:
@@ -150,6 +164,9 @@ def run(pid, tier, seed):
                 (c["delta"] != "1" or c["tampered"] not in (1, c["n"])):
             continue     # quick: the model evaluates the honest vector and those with the first / last key moved by 1;
                          # every moved key is still judged by the monitor above
+        if c["kind"] == "cross" and tier == "thorough" and c["tampered"] != 0 and \
+                (c["delta"] != "1" or (c["n"] > 7 and c["tampered"] != 1)):
+            continue     # thorough: all delta=1 vectors up to n=7, the honest vector and the first key moved above
         tc = to_coq(c, vec)
         if tc is None or tc[0] in seen:
             continue
@@ -186,7 +203,7 @@ def run(pid, tier, seed):
             nontriv.add(vlib.canon_hash(t))
         elif c["kind"] == "cross" or (c["kind"] == "choose" and 0 < c["k"] <= c["n"]) or c["kind"] == "gen":
             nontriv.add(vlib.canon_hash(t))
-    mon = collections.Counter(c["kind"] + "/" + c["pkg"] for c in cases if c["kind"] in ("rec", "group", "cross", "choose", "gen"))
+    mon = collections.Counter(c["kind"] + "/" + c["pkg"] for c in cases if c["kind"] in ("rec", "group", "cross", "choose", "gen", "dkg"))
     chk.cov["evaluations"] = len(items) + sum(mon.values())
     chk.cov["distinct_nontrivial"] = len(nontriv)
     chk.cov["rule"] = ("scalar level: for every (n,t) with 2<=t<=n<=%d and %s seeds (one scripted edge polynomial: all r-1 / secret 0 / "
@@ -194,7 +211,8 @@ def run(pid, tier, seed):
                        "subset of >=2 parties for n<=6 (a sample above) in sorted and shuffled order, lagrangeCoefficient on every "
                        "(party, subset) of 1..%d plus out-of-domain probes, chooseKoutOfN for all n<=%d, the DKG cross-check on honest "
                        "and single-key-moved vectors; each compared as exact integers with the Coq model; group level and cross-check "
-                       "verdicts monitored on the real curve code of both packages. distinct = by content of the Gallina case; "
+                       "verdicts monitored on the real curve code of both packages; whole DKGs through Init/KeyGen/OnMsg/Sign/Verifier "
+                       "(n<=4, 6 thorough) with every party honest and with each party in turn committing to and revealing a moved key. distinct = by content of the Gallina case; "
                        "non-trivial = not a panic probe, >= 2 points, 0<k<=n"
                        % ((6, 2, 6, 8) if tier == "quick" else (10, 3, 8, 10)))
     chk.cov["input_distribution"] = dict(
@@ -206,10 +224,15 @@ def run(pid, tier, seed):
         cross=dict(collections.Counter(
             ("honest" if c["tampered"] == 0 else "moved") + ("/t<n" if c["t"] < c["n"] else "/t=n") +
             ("/accepted" if c["accepted"] else "/rejected") for c in cases if c["kind"] == "cross")),
+        dkg=dict(collections.Counter(
+            ("honest" if c["tampered"] == 0 else "moved") + ("/t<n" if c["t"] < c["n"] else "/t=n") +
+            ("/all honest parties accept" if all(a for i, a in enumerate(c["accepted"]) if i + 1 != c["tampered"]) else
+             "/all honest parties reject" if not any(a for i, a in enumerate(c["accepted"]) if i + 1 != c["tampered"]) else "/split")
+            for c in cases if c["kind"] == "dkg")),
         moved_key_with_t_eq_n_undetectable_by_design=undetectable,
     )
     samples = []
-    for kind in ("gen", "rec", "lag", "group", "cross", "choose"):
+    for kind in ("gen", "rec", "lag", "group", "cross", "choose", "dkg"):
         samples += [c for c in cases if c["kind"] == kind and c.get("n", 3) >= 3][2:3]
     chk.cov["samples"] = samples
     chk.cov["traces_validated_against_impl"] = len(items)
